@@ -168,6 +168,12 @@ theorem mapM_ok_forall₂ {α β} (g : α → Except Err β) :
         cases h
         exact List.Forall₂.cons ha (mapM_ok_forall₂ g l bs hl)
 
+theorem forall₂_mem {α β} {R : α → β → Prop} : ∀ {l : List α} {fs : List β}, List.Forall₂ R l fs →
+    List.Forall₂ (fun a b => a ∈ l ∧ R a b) l fs
+  | _, _, .nil => .nil
+  | _, _, .cons hab h => .cons ⟨List.mem_cons_self, hab⟩
+      ((forall₂_mem h).imp fun _ _ hh => ⟨List.mem_cons_of_mem _ hh.1, hh.2⟩)
+
 theorem mapM_ok_of_forall {α β} (g : α → Except Err β) :
     ∀ (l : List α), (∀ a ∈ l, ∃ b, g a = .ok b) → ∃ fs, l.mapM g = .ok fs
   | [], _ => ⟨[], rfl⟩
